@@ -355,6 +355,13 @@ func c16() {
 			cases[pi].prefixOf = full
 		}
 	}
+	// (1b) very large listings (thorough: 3000 and 40000 functions, tens of MB) and the smallest ones
+	for _, nf := range []int{0, 1, run.N(800, 3000), run.N(0, 40000)} {
+		r := caseRand(run, 777+nf)
+		funcs := genFunctions(r, nf, tables["x86_64"])
+		text, exp := renderListing(funcs, false, tables["x86_64"], r)
+		add(&c16Case{kind: "model-size-extreme", arch: "x86_64", text: []byte(text), exp: exp, hasExp: true, numOnly: usesHeaderVariants(funcs)})
+	}
 	// (2) hostile lines
 	base, _ := renderListing(genFunctions(r0, 6, tables["x86_64"]), false, tables["x86_64"], r0)
 	hostile := []string{}
